@@ -7,5 +7,6 @@ func main() {
 	vh.Main(map[string]vh.Mode{
 		"delta": deltaMode,
 		"probe": probeMode,
+		"sharedpoll": sharedPollMode,
 	})
 }
